@@ -116,6 +116,43 @@ def gen(tier, seed, info):
         yield " ".join(hdr + ops + tail)
     info["random_cases"] = nrand
     info["random_with_mutation"] = nmut
+    # drags whose source is a NESTED window, with a window inside the source, the source itself or one above
+    # it closed (between two events of the gesture, or by a handler during one): the source is forgotten
+    # exactly when it leaves the tree
+    ndrag = 1500 if tier == "quick" else 60000
+    for k in range(ndrag):
+        nl, nc = rnd.randint(4, 6), rnd.randint(5, 9)
+        depth = rnd.randint(2, 4)
+        hdr = ["W G %d %d A" % (nl, nc)]
+        ops = []
+        # a chain 1 > 2 > ... > depth, every window covering (nearly) all of its parent
+        for w in range(1, depth + 1):
+            ops.append("N %d %d %d %d %d %d 0" % (w, w - 1, rnd.randint(0, 1) if w > 1 else 0, rnd.randint(0, 1) if w > 1 else 0,
+                                                   nl - (w - 1), nc - (w - 1)))
+        if rnd.random() < 0.4:   # a sibling somewhere, to be dragged over
+            ops.append("N %d %d %d %d 2 2 %d" % (depth + 1, rnd.randint(0, depth - 1), rnd.randint(0, 2), rnd.randint(0, 3), rnd.choice([0, 2])))
+        src = rnd.randint(1, depth)
+        hdr.append("CL %d %d" % (src, 32 | rnd.choice([0, 4, 64, 256, 4 | 64 | 256])))
+        for w in range(0, depth + 1):
+            if w != src and rnd.random() < 0.2:
+                hdr.append("CL %d %d" % (w, rnd.choice([2, 4, 8, 64, 128, 256])))
+        b = rnd.randint(1, 3)
+        pl, pc = rnd.randint(depth, nl - 1) if depth < nl else nl - 1, rnd.randint(depth, nc - 1)
+        pos = lambda: (rnd.randint(0, nl - 1), rnd.randint(0, nc - 1))
+        evs = ["MS 1 %d %d %d" % (b, pl, pc), "MS 2 %d %d %d" % ((b,) + pos())]
+        for _ in range(rnd.randint(1, 3)):
+            evs.append("MS 2 %d %d %d" % ((b,) + pos()))
+        evs.append("MS 3 %d %d %d" % ((b,) + pos()))
+        if rnd.random() < 0.3:
+            evs += ["MS 1 %d %d %d" % (b, pl, pc), "MS 2 %d %d %d" % ((b,) + pos()), "MS 3 %d %d %d" % ((b,) + pos())]
+        victim = rnd.randint(1, depth)
+        if rnd.random() < 0.6:
+            at = rnd.randint(2, len(evs) - 1)      # between two events, after the drag began
+            evs.insert(at, "X %d" % victim)
+        else:
+            hdr.append("MU %d 1 %d %d" % (rnd.randint(0, depth), rnd.randint(1, 2), victim))
+        yield " ".join(hdr + ops + evs)
+    info["nested_drag_cases"] = ndrag
 
 
 def classify(case, obs):
